@@ -134,6 +134,8 @@ pub fn minimise(prop: &str, v0: &Violation, sc: &Scenario, cfg: &SchedCfg, budge
         c.spurious_permille = 0;
         alt.push(c);
     }
+    // signatures that rest on a promise of the generating family cannot be shrunk structurally
+    let budget = if sc.expect.is_some() && v0.prop == "C14" { 0 } else { budget };
     let mut m = M { prop, sig: v0.sig.clone(), execs: 0, budget, scheds: alt };
     let mut best = sc.clone();
     let mut best_cfg = plain;
@@ -157,7 +159,7 @@ pub fn minimise(prop: &str, v0: &Violation, sc: &Scenario, cfg: &SchedCfg, budge
                 }
             };
             // the actor list keeps its indices meaningful: never delete actors
-            if p.len() == 1 && p[0] == "actors" {
+            if (p.len() == 1 && p[0] == "actors") || p.first().map(|x| x == "expect").unwrap_or(false) {
                 continue;
             }
             for idx in (0..len).rev() {
